@@ -1,10 +1,26 @@
 #!/bin/bash
-# Build the framework from files on disk only (offline): Coq development, extracted model runner, harness.
+# Build the framework from files on disk only (offline): Coq development, extracted model runner, harness, plug-in runners.
 set -e
 cd "$(dirname "$0")"
 export GOFLAGS=-mod=mod GOPROXY=off GOSUMDB=off GOTOOLCHAIN=local
 mkdir -p out evidence
+python3 translator/gen.py >/dev/null
 ( cd coq && coq_makefile -f _CoqProject -o Makefile >/dev/null && timeout 3000 make -j16 >/dev/null )
 ( cd model && coqc -Q ../coq/theories Hub Extract.v >/dev/null 2>&1 && ocamlfind ocamlopt -package zarith -linkpkg -w -a hub_model.mli hub_model.ml driver.ml -o hub_model_run )
 ( cd harness && sed -e 's#^module .*#module hubverif/harness#' /repo/go.mod > go.mod && printf '\nrequire github.com/sentinel-official/hub/v12 v12.0.0\n\nreplace github.com/sentinel-official/hub/v12 => /repo\n' >> go.mod && cp /repo/go.sum go.sum && mkdir -p bin && go build -tags verif -o bin/harness . )
+python3 - <<'PY'
+import importlib.util, json, os, sys
+V = os.getcwd()
+claimed = [c["property_id"] for c in json.load(open(os.path.join(V, "MANIFEST.json")))["checks"]]
+for path in sorted(os.path.join(V, "tools", "ext_%s.py" % p.lower()) for p in claimed):
+    if not os.path.exists(path):
+        continue
+    spec = importlib.util.spec_from_file_location(os.path.basename(path)[:-3], path)
+    mod = importlib.util.module_from_spec(spec)
+    spec.loader.exec_module(mod)
+    ok, err = mod.build(V, os.path.join(V, "out", "setup-ext.log"))
+    if not ok:
+        print("plug-in build failed:", path, err)
+        sys.exit(1)
+PY
 echo setup done
